@@ -24,7 +24,7 @@ def gen_abstract(r):
     commit = r.random() < 0.6
     c = dict(current_version=cv, version_pattern=vp,
              commit_message=r.choice([None, "bump {old_version} -> {new_version}", "release: {new_version}", "it's {new_version}",
-                                      "release {new_version} ; was {old_version}", "bump to {new_version} # automated"]),
+                                      "release {new_version} ; was {old_version}", "bump to {new_version} # automated", "release {new_version} (100% tested, %(x)s)"]),
              tag_message=r.choice([None, "{new_version}", "v {new_version}", "{new_version} ; stable", "tag #{new_version}"]),
              tag_scope=r.choice([None, "default", "global", "branch"]),
              pre_commit_hook=r.choice([None, None, "hook.sh"]), post_commit_hook=r.choice([None, None, "hook.sh"]),
@@ -33,7 +33,7 @@ def gen_abstract(r):
         c["commit"] = None      # missing optional key
     files = {}
     for i in range(r.choice([0, 1, 2, 3, 6])):
-        name = r.choice(["a%d.txt", "src/m%d.py", "docs/r%d.md"]) % i
+        name = r.choice(["a%d.txt", "src/m%d.py", "docs/r%d.md", "Docs/ReadMe%d.MD", "SRC/Pkg%d/__init__.py"]) % i   # file names are case sensitive
         files[name] = [r.choice(['__version__ = "{version}"', "{version}", "{pep440_version}", 'v = "{pep440_version}"', "Copyright YYYY" if "{" not in vp else "{version} ",
                                  'version = "{version}"  # managed by bumpver', "{version} ; stable"])
                        for _ in range(r.choice([1, 1, 2, 4]))]
